@@ -316,6 +316,8 @@ def replay_scalars(vals, oid):
                     g.write(line)
             sr = spikeglx.Reader(b, ignore_warnings=True)
             want = np.r_[np.full(384, 0.6 / 500), np.full(nsy, 512.0)]
+            first = sr.range_volts
+            first *= 1e6                    # a caller converting its copy to microvolts in place
             got = np.asarray(sr.range_volts, dtype=float)
             if sr.nsync != nsy or got.shape != want.shape or not np.allclose(got, want, rtol=1e-5):
                 bad.append({"sync_channels_saved": nsy, "nsync": sr.nsync, "range_volts_first_and_last": [float(got[0]), float(got[-1])] if got.size else [], "expected": [0.6 / 500, 512.0 if nsy else 0.6 / 500]})
@@ -367,6 +369,11 @@ def h_scalars(H):
         rv = it.getattr(obj, "range_volts")
         c = z3.Int("c")
         it.ctx.oblige("range_volts", A.forall([c], lambda: z3.Implies(z3.And(c >= 0, c < nap + nsy), rv.read((c,)) == s2v.read((c,)) * z3.ToReal(maxint))), "post")
+        # the caller converts what it was handed in place (to microvolts, say) and asks again: the second answer is again the range in volts
+        A.setitem(rv, (slice(None),), 1200.0)
+        rv2 = it.getattr(obj, "range_volts")
+        it.ctx.oblige("range_volts.asked_again_after_the_caller_edited_its_copy", A.forall([c], lambda: z3.Implies(z3.And(c >= 0, c < nap + nsy), rv2.read((c,)) == s2v.read((c,)) * z3.ToReal(maxint))), "post",
+                      "derived quantities agree with an independent reading of the fields at every request: the array handed out is the caller's own", assume=False)
     S.explore(body)
 
 
